@@ -107,8 +107,8 @@ func probeO6() (bool, string) {
 	})
 }
 
-// order runs f under sorted and under reversed enumeration order.
-func order(f func() string) (string, string) {
+// underOrders runs f under sorted and under reversed enumeration order.
+func underOrders(f func() string) (string, string) {
 	defer func() { zzsimhook.OnKeys = nil }()
 	zzsimhook.OnKeys = nil
 	a := f()
@@ -125,7 +125,7 @@ func order(f func() string) (string, string) {
 
 func probeO7() (bool, string) {
 	return guard(func() (bool, string) {
-		a, b := order(func() string {
+		a, b := underOrders(func() string {
 			c, _ := ucfg.NewFrom(map[string]interface{}{"a": "${b}", "b": "${c}", "c": map[string]interface{}{"x": 1}}, sepVar...)
 			return fmt.Sprint(c.FlattenedKeys(sepVar...))
 		})
@@ -135,11 +135,23 @@ func probeO7() (bool, string) {
 
 func probeO8() (bool, string) {
 	return guard(func() (bool, string) {
-		a, b := order(func() string {
+		a, b := underOrders(func() string {
 			_, err := ucfg.NewFrom(map[string]interface{}{"a.b": 1, "a": map[string]interface{}{"b": 2}}, ucfg.PathSep("."))
 			return fmt.Sprint(err)
 		})
-		return a != b, "NewFrom({\"a.b\":1,\"a\":{\"b\":2}}) under sorted / reversed enumeration: " + a + " / " + b
+		if a != b {
+			return true, "NewFrom({\"a.b\":1,\"a\":{\"b\":2}}) under sorted / reversed enumeration: " + a + " / " + b
+		}
+		a, b = underOrders(func() string {
+			c, err := ucfg.NewFrom(map[string]interface{}{"a": map[string]interface{}{"a": 1}, "a.b": 2}, ucfg.PathSep("."), ucfg.ReplaceValues)
+			if err != nil {
+				return err.Error()
+			}
+			var m map[string]interface{}
+			c.Unpack(&m)
+			return fmt.Sprint(m)
+		})
+		return a != b, "NewFrom({\"a\":{\"a\":1},\"a.b\":2}, ReplaceValues) under sorted / reversed enumeration: " + a + " / " + b
 	})
 }
 
@@ -309,7 +321,7 @@ func probeO20() (bool, string) {
 // per-call value cache remembers whichever evaluation context came first.
 func probeO21() (bool, string) {
 	return guard(func() (bool, string) {
-		a, b := order(func() string {
+		a, b := underOrders(func() string {
 			c, _ := ucfg.NewFrom(map[string]interface{}{"a": "${b}x", "b": "${a:d}"}, sepVar...)
 			var m map[string]interface{}
 			err := c.Unpack(&m, sepVar...)
